@@ -247,6 +247,33 @@ def build():
     u.fn(MP, 'append', within=WS, nth=0, display="into_metadata_key::Sealed for &'static str::append")
     u.close('}')
 
+    # the remaining key types: a borrowed MetadataKey (both traits), String and &String (lookups)
+    u._emit('''impl<'k, VE: ValueEncoding> into_metadata_key::Sealed<VE> for &'k MetadataKey<VE> {
+    open spec fn key_name(&self) -> Seq<char> { self.inner@ }
+    open spec fn key_ok(&self) -> bool { true }''')
+    u._open_header = "impl<'k, VE: ValueEncoding> into_metadata_key::Sealed<VE> for &'k MetadataKey<VE> {"
+    WR = 'impl<VE: ValueEncoding> Sealed<VE> for &MetadataKey<VE>'
+    u.fn(MP, 'insert', within=WR, nth=0, body_edits=r3val, closures=cl_val, display='into_metadata_key::Sealed for &MetadataKey::insert')
+    u.fn(MP, 'append', within=WR, nth=0, display='into_metadata_key::Sealed for &MetadataKey::append')
+    u.close('}')
+    u._emit('''impl<'k, VE: ValueEncoding> as_metadata_key::Sealed<VE> for &'k MetadataKey<VE> {
+    open spec fn key_name(&self) -> Seq<char> { self.inner@ }
+    open spec fn key_ok(&self) -> bool { true }''')
+    u._open_header = "impl<'k, VE: ValueEncoding> as_metadata_key::Sealed<VE> for &'k MetadataKey<VE> {"
+    u.fn(MP, 'get', within=WR, nth=0, body_edits=r3ref, closures=cl_ref, display='as_metadata_key::Sealed for &MetadataKey::get')
+    u.fn(MP, 'remove', within=WR, nth=0, body_edits=r3val, closures=cl_val, display='as_metadata_key::Sealed for &MetadataKey::remove')
+    u.close('}')
+    for ty, hdr_ty, disp in (('String', 'String', 'String'), ("&'k String", '&String', '&String')):
+        lt = "<'k, VE: ValueEncoding>" if "'k" in ty else '<VE: ValueEncoding>'
+        u._emit('''impl%s as_metadata_key::Sealed<VE> for %s {
+    open spec fn key_name(&self) -> Seq<char> { self@ }
+    open spec fn key_ok(&self) -> bool { VE::valid_key(self@) }''' % (lt, ty))
+        u._open_header = 'impl%s as_metadata_key::Sealed<VE> for %s {' % (lt, ty)
+        WT = 'impl<VE: ValueEncoding> Sealed<VE> for %s' % hdr_ty
+        u.fn(MP, 'get', within=WT, nth=0, body_edits=r3ref, closures=cl_ref, display='as_metadata_key::Sealed for %s::get' % disp)
+        u.fn(MP, 'remove', within=WT, nth=0, body_edits=r3val, closures=cl_val, display='as_metadata_key::Sealed for %s::remove' % disp)
+        u.close('}')
+
     u._emit('impl MetadataMap {'); u._open_header = 'impl MetadataMap {'
     for name, enc in [('get', 'Ascii'), ('get_bin', 'Binary')]:
         u.fn(MP, name, within='impl MetadataMap', nth=0,
